@@ -82,7 +82,12 @@ pub(crate) fn contended_yield(kind: &'static str) {
 
 /// Named points that belong to the `quick` set (level 1); all others need level 2.
 fn is_quick_point(name: &str) -> bool {
-    name.starts_with("get.") || name.starts_with("write.") || name.starts_with("gc.") || name.starts_with("iter.")
+    name.starts_with("get.")
+        || name.starts_with("write.")
+        || name.starts_with("gc.")
+        || name.starts_with("iter.")
+        || name.starts_with("compact.")
+        || name.starts_with("flush.")
 }
 
 /// A named scheduling point inside RainDB (hook 2).
